@@ -132,13 +132,13 @@ theorem source_chains_registrations : Generated.validatorRegistration = "chain" 
     `Config.load_tree`, `Config.validate`, `Schema._validate`, `Schema._validate_field`, `Field.validate`, regenerated from
     `cincoconfig/core.py` on every run): a tree entry of a field bound to a non-empty variable is skipped, every other entry is decoded
     (errors wrapped) and stored, then the whole configuration is validated; the walk returns at once when the feature flag is off,
-    skips include / virtual / method fields, validates every other field and nested configuration, then runs every schema validator,
+    skips virtual / method fields, validates every other field (include fields too: F61) and nested configuration, then runs every schema validator,
     converting ANY exception into the library's error and — in collecting mode — into a list entry; a field's validation stops at
     `None` (raising when required) and otherwise runs `_validate` and then the registered validator -/
 theorem load_validate_code_order : Generated.loadValidateShape =
     [("Config.load_tree", ["loop[tree.items()]", "_get_field", "if[isinstance(field, Field)]", "if[isinstance(field.env, str) and field.env and os.environ.get(field.env)]", "continue", "end", "try", "to_python", "except:ValidationError", "raise", "except:Exception", "raise:ValidationError", "end", "end", "_set_value", "end", "if[validate]", "validate", "end"]),
      ("Config.validate", ["_validate"]),
-     ("Schema._validate", ["if[not self._is_feature_enabled(config)]", "return", "end", "let[ignore_types=(IncludeFieldMixin, VirtualFieldMixin, InstanceMethodFieldMixin)]", "loop[self._fields.values()]", "if[isinstance(field, ignore_types)]", "continue", "end", "try", "_validate_field", "except:ValidationError", "if[not collect_errors]", "raise", "end", "append", "except:Exception", "if[not collect_errors]", "raise:exc", "end", "append", "end", "end", "loop[self._validators]", "try", "validator", "except:ValidationError", "if[not collect_errors]", "raise", "end", "append", "except:Exception", "if[not collect_errors]", "raise:exc", "end", "append", "end", "end"]),
+     ("Schema._validate", ["if[not self._is_feature_enabled(config)]", "return", "end", "let[ignore_types=(VirtualFieldMixin, InstanceMethodFieldMixin)]", "loop[self._fields.values()]", "if[isinstance(field, ignore_types)]", "continue", "end", "try", "_validate_field", "except:ValidationError", "if[not collect_errors]", "raise", "end", "append", "except:Exception", "if[not collect_errors]", "raise:exc", "end", "append", "end", "end", "loop[self._validators]", "try", "validator", "except:ValidationError", "if[not collect_errors]", "raise", "end", "append", "except:Exception", "if[not collect_errors]", "raise:exc", "end", "append", "end", "end"]),
      ("Schema._validate_field", ["__getval__", "if[isinstance(field, Field)]", "validate", "else", "if[isinstance(val, Config)]", "validate", "end", "end"]),
      ("Field.validate", ["if[self.required and value is None]", "raise:ValueError", "end", "if[value is None]", "return", "end", "_validate", "if[self.validator]", "validator", "end"])] := by decide
 
